@@ -241,10 +241,13 @@ def transpile_structure(
                 indent,
             )
             + indent_str(f"    ctx.context_values.append({var})", indent)
+            # (try/finally so that break and continue undo the push too)
+            + indent_str("    try:", indent)
             + transpile_ast(
-                struct.body, indent + 1, dict_compress=dict_compress
+                struct.body, indent + 2, dict_compress=dict_compress
             )
-            + indent_str("    ctx.context_values.pop()", indent)
+            + indent_str("    finally:", indent)
+            + indent_str("        ctx.context_values.pop()", indent)
         )
     if isinstance(struct, vyxal.structure.WhileLoop):
         # The condition is evaluated inside the loop so that a break or
@@ -257,10 +260,12 @@ def transpile_structure(
             + indent_str("    condition = pop(stack, 1, ctx=ctx)", indent)
             + indent_str("    if not boolify(condition, ctx): break", indent)
             + indent_str("    ctx.context_values.append(condition)", indent)
+            + indent_str("    try:", indent)
             + transpile_ast(
-                struct.body, indent + 1, dict_compress=dict_compress
+                struct.body, indent + 2, dict_compress=dict_compress
             )
-            + indent_str("    ctx.context_values.pop()", indent)
+            + indent_str("    finally:", indent)
+            + indent_str("        ctx.context_values.pop()", indent)
         )
     if isinstance(struct, vyxal.structure.FunctionCall):
         var = re.sub("[^A-Za-z0-9_]", "", struct.name)
@@ -307,13 +312,15 @@ def transpile_structure(
             + indent_str("ctx.stacks.append(stack)", indent + 1)
             + indent_str("ctx.inputs.append([parameters[::-1], 0])", indent + 1)
             + indent_str(f"this = VAR_{var}", indent + 1)
+            + indent_str("try:", indent + 1)
             + indent_str(
                 transpile_ast(struct.body, dict_compress=dict_compress),
-                indent + 1,
+                indent + 2,
             )
-            + indent_str("ctx.context_values.pop()", indent + 1)
-            + indent_str("ctx.inputs.pop()", indent + 1)
-            + indent_str("ctx.stacks.pop()", indent + 1)
+            + indent_str("finally:", indent + 1)
+            + indent_str("ctx.context_values.pop()", indent + 2)
+            + indent_str("ctx.inputs.pop()", indent + 2)
+            + indent_str("ctx.stacks.pop()", indent + 2)
             + indent_str("return stack", indent + 1)
         )
     if isinstance(struct, vyxal.structure.Lambda):
@@ -417,18 +424,11 @@ def transpile_structure(
         ):
             return indent_str("break", indent)
         elif struct.parent_structure == vyxal.structure.FunctionDef:
-            return (
-                indent_str("ctx.inputs.pop()", indent)
-                + indent_str("ctx.context_values.pop()", indent)
-                + indent_str("return stack", indent)
-            )
+            # (the function template restores the context in a finally)
+            return indent_str("return stack", indent)
         elif struct.parent_structure == vyxal.structure.Lambda:
-            return (
-                indent_str("ret = [pop(stack, 1, ctx=ctx)]", indent)
-                + indent_str("ctx.context_values.pop()", indent)
-                + indent_str("ctx.inputs.pop()", indent)
-                + indent_str("return ret", indent)
-            )
+            # (the lambda template restores the context in a finally)
+            return indent_str("return [pop(stack, 1, ctx=ctx)]", indent)
         else:
             return indent_str("pass", indent)
     if isinstance(struct, vyxal.structure.RecurseStatement):
@@ -507,15 +507,18 @@ def transpile_lambda(
             indent + 1,
         )
         + indent_str("ctx.stacks.append(stack);", indent + 1)
+        # (try/finally so that an early return - break - undoes the pushes too)
+        + indent_str("try:", indent + 1)
         + indent_str(
             transpile_ast(lam.body, dict_compress=dict_compress),
-            indent + 1,
+            indent + 2,
         )
-        + indent_str("res = [pop(stack, 1, ctx)]", indent + 1)
-        + indent_str("ctx.context_values.pop()", indent + 1)
-        + indent_str("ctx.inputs.pop()", indent + 1)
-        + indent_str("ctx.stacks.pop()", indent + 1)
-        + indent_str("ctx.function_stack.pop()", indent + 1)
+        + indent_str("res = [pop(stack, 1, ctx)]", indent + 2)
+        + indent_str("finally:", indent + 1)
+        + indent_str("ctx.context_values.pop()", indent + 2)
+        + indent_str("ctx.inputs.pop()", indent + 2)
+        + indent_str("ctx.stacks.pop()", indent + 2)
+        + indent_str("ctx.function_stack.pop()", indent + 2)
         + indent_str("return res", indent + 1)
         + indent_str(
             f"_lambda_{id_}.arity = "
